@@ -4,6 +4,10 @@
   typed from the RFC.
 -/
 import Abnf.Obligations.C06
+import Abnf.Equiv
+import Abnf.Ref
+import Abnf.Obligations.Meta
+import Abnf.Theorems.C01
 namespace Abnf.C06
 open Abnf.Obl.C06
 
@@ -39,6 +43,35 @@ theorem core_exact (name : String) (ivs : Ivs) (hrow : (name, ivs) ∈ Ref.b1Cla
 theorem charClass_is_exact (G : Grammar) (f : Nat) (e : Expr) (I : Ivs) (h : charClass G f e = some I) :
     ∀ (s : Src) (i j : Nat), M G s e i j ↔ (j = i + 1 ∧ ∃ c, s[i]? = some c ∧ inIvs c I = true) :=
   charClass_sound G f e I h
+
+/-- all 16 core rules paired BY NAME with the B.1 rules of `Ref.rfcG` (typed from the RFC) -/
+def pairs : List (Nat × Nat) :=
+  AbnfGen.coreGNames.filterMap (fun (n, k) => (Ref.indexOf n).map (fun j => (k, j)))
+
+theorem pairs_cover : pairs.map (·.1) = List.range 16 ∧ AbnfGen.coreG.size = 16 ∧
+    pairs.all (fun p => (AbnfGen.coreG.toList[p.1]?).map (·.name) == (Ref.rfcG.toList[p.2]?).map (·.name)) = true := by
+  decide +kernel
+
+theorem equiv_ok : equivOk AbnfGen.coreG Ref.rfcG pairs 12 = true := by decide +kernel
+
+/-- **Every core rule, sequences included** (CRLF, LWSP as well as the 14 character classes): the rule of the table
+regenerated from /repo matches exactly the spans the B.1 rule of the same name matches, on every text. -/
+theorem core_equiv_rfc (r1 r2 : Nat) (hmem : (r1, r2) ∈ pairs) (s : Src) (i j : Nat) :
+    M AbnfGen.coreG s (.ref r1) i j ↔ M Ref.rfcG s (.ref r2) i j :=
+  equiv_pairs equiv_ok hmem s i j
+
+/-- the engine run on the core table, stated against the B.1 grammar: for every text and offset the listed ends of
+core rule X are exactly the ends RFC 5234 B.1 defines for X (the engine terminates within the explicit fuel) -/
+theorem core_engine_exact_wrt_rfc (r1 r2 : Nat) (hmem : (r1, r2) ∈ pairs) (s : Src) (i : Nat) (hi : i ≤ s.length) (f : Nat)
+    (hf : fuelFor AbnfGen.coreGK AbnfGen.coreGD (s.length - i) AbnfGen.coreGK 0 ≤ f) :
+    (∃ ms, lparse AbnfGen.coreG f s (.ref r1) i = .ok ms ∧ ∀ j, j ∈ stops ms ↔ M Ref.rfcG s (.ref r2) i j) ∨
+    (lparse AbnfGen.coreG f s (.ref r1) i = .fail ∧ ∀ j, ¬ M Ref.rfcG s (.ref r2) i j) ∨
+    lparse AbnfGen.coreG f s (.ref r1) i = .gerr := by
+  rcases C01.matching_conforms (wfCheck_sound _ _ _ _ _ Obl.Meta.core_wf) (plainGB_sound _ Obl.Meta.core_plain) s r1 i hi f hf
+    with ⟨ms, h1, h2⟩ | ⟨h1, h2⟩ | h1
+  · exact Or.inl ⟨ms, h1, fun j => (h2 j).trans (core_equiv_rfc r1 r2 hmem s i j)⟩
+  · exact Or.inr (Or.inl ⟨h1, fun j hm => h2 j ((core_equiv_rfc r1 r2 hmem s i j).mpr hm)⟩)
+  · exact Or.inr (Or.inr h1)
 
 example : (normIvs [(0x61, 0x66), (0x30, 0x39), (0x41, 0x46)]) = [(0x30, 0x39), (0x41, 0x46), (0x61, 0x66)] := by decide
 
